@@ -90,7 +90,8 @@ def behav : P Behav := do
   let kids ← nat
   let kidTerm ← optNat
   let execFail ← bool
-  pure { term := term, killLat := killLat, kids := kids, kidTerm := kidTerm, execFail := execFail }
+  let spawnMs ← nat
+  pure { term := term, killLat := killLat, kids := kids, kidTerm := kidTerm, execFail := execFail, spawnMs := spawnMs }
 
 def op : P Op := do
   let t ← tok
